@@ -46,7 +46,7 @@ def get_pattern():
     return obs
 
 
-@scenario("toplevel:untyped-builder", PB, ["C01", "C03", "C06", "C17"], inlined=["_handle_simple_case", "_handle_dict_case",
+@scenario("toplevel:untyped-builder", PB, ["C01", "C03", "C06", "C17", "C02", "C14"], inlined=["_handle_simple_case", "_handle_dict_case",
                                                                               "_handle_tuple_case", "_get_name", "_get_children",
                                                                               "_get_simple_child", "build"],
           doc="YAML item -> untyped node: name, children in order")
@@ -94,6 +94,38 @@ def untyped_builder():
             obs.append(simple_ob(f"PatternNodeBuilderNoParents:{cid}:p{i}:POST", PB, "POST",
                                  f"[{cid}] node carries the item's name, its children are the body's items in order, one shared context",
                                  ok, ["C01", "C03", "C06"], detail=repr(p.value)[:120], witness=cid))
+    # FRAME: the YAML object an item is built from is not modified, and building it a second time (YAML aliases share one object
+    # between several items; produce_regex() may be called twice) gives the same node -- name, repetition bounds, children
+    import copy as _copy
+
+    def shape_of(n):
+        t = getattr(n, "times", None)
+        ch = n.children
+        return (repr(n.name), (getattr(t, "min_times", None), getattr(t, "max_times", None)),
+                None if ch is None else [shape_of(c) for c in ch])
+    frame_cases = [
+        ("sibling-times", {"push": ["%r"], "times": 2}),
+        ("sibling-times-range", {"push": ["%r"], "times": {"min": 2, "max": 3}}),
+        ("times-first", {"times": 2, "mov": ["%rax"]}) if False else ("inner-times", {"call": {"times": 3}}),
+        ("group-times", {"$or": ["push", "pop"], "times": {"min": 2, "max": 3}}),
+        ("and-times", {"$and": ["push", {"mov": ["rsp", "rbp"]}], "times": 2}),
+        ("deref-times", {"$deref": {"main_reg": "rax", "constant_offset": "0x8"}, "times": 2}),
+        ("not-times", {"$not": ["ret"], "times": {"min": 1, "max": 8}}),
+        ("plain", {"mov": ["rax", {"$deref": {"main_reg": "rbx"}}]}),
+    ]
+    for cid, item in frame_cases:
+        before = _copy.deepcopy(item)
+        try:
+            n1 = J.builder.PatternNodeBuilderNoParents(item, sc).build()
+            after1 = _copy.deepcopy(item)
+            n2 = J.builder.PatternNodeBuilderNoParents(item, sc).build()
+            ok = after1 == before and item == before and shape_of(n1) == shape_of(n2)
+            detail = f"item before {before} after {item}; first {shape_of(n1)} second {shape_of(n2)}"
+        except Exception as e:  # noqa
+            ok, detail = False, repr(e)
+        obs.append(simple_ob(f"PatternNodeBuilderNoParents:{cid}:FRAME-input", PB, "FRAME",
+                             f"[{cid}] the item is not modified by being built, and a second build of the same object gives the same node "
+                             "(same name, same repetition bounds, same children)", ok, ["C02", "C01", "C03", "C14"], detail=detail[:400], witness=cid))
     for cid, mk in (("float", lambda: 1.5), ("none", lambda: None), ("scalar-body", lambda: {Name("w"): 3})):
         run = sym_run(lambda mk=mk: J.builder.PatternNodeBuilderNoParents(mk(), sc).build())
         for i, p in enumerate(run.paths):
